@@ -270,6 +270,19 @@ theorem pupil_images_to_amplitude_power (wl : ℝ) (amp : Attr ℂ) (opd : Attr 
       = ∑ i ∈ range S0, ∑ j ∈ range S1, (if g.m i j = true then Complex.normSq (amp.at i j) else 0) :=
   pupil_image_total_aux wl amp opd S0 S1 K L g hc hbig hK hL hS0 hS1 oe P0 P1 hoe hP hcover
 
+/-- **fields carrying different tilts.** Every field `t` has its own shift `fix + sub`. Where every field's window covers one whole
+period, the intensity `|Σ fields|²` of the C02 model summed over that period equals the power of the coherent sum of the *tilted*
+input fields — each input multiplied by its own phase ramp `exp(2πi(αr·X·s_r + αc·Y·s_c))` (`rampFld`): differently tilted fields
+interfere, so their untilted `Σ|field|²` is not the reference, but the propagation itself conserves energy. -/
+theorem multi_tilt_period_energy (ts : List (TField ℂ ℝ)) (S0 S1 K L : ℕ) (hfit : ∀ t ∈ ts, Fits t.fld S0 S1) (hK : 0 < K) (hL : 0 < L)
+    (hS0 : S0 ≤ K) (hS1 : S1 ≤ L) (oe : Extent) (P0 P1 : ℤ) (hoe : oe.rmin ≤ oe.rmax ∧ oe.cmin ≤ oe.cmax) (hP : 0 < P0 ∧ 0 < P1)
+    (hcover : ∀ t ∈ ts, ∀ q ∈ periodBox K L, (oe.inb q.1 q.2 && (propExtent P0 P1 t.fix0 t.fix1).inb q.1 q.2) = true) :
+    ∑ q ∈ periodBox K L, Complex.normSq
+        ((ts.map fun t => embO (propagateField t (1 / (K : ℝ)) (1 / (L : ℝ)) oe P0 P1) q.1 q.2).sum)
+      = arrSum (intensity (R := ℝ) (embedAll (ts.map fun t =>
+          rampFld t.fld (1 / (K : ℝ)) (1 / (L : ℝ)) ((t.fix0 : ℝ) + t.sub0) ((t.fix1 : ℝ) + t.sub1)) S0 S1)) :=
+  multi_tilt_period_energy_aux ts S0 S1 K L hfit hK hL hS0 hS1 oe P0 P1 hoe hP hcover
+
 /-- **the `fft2` contract is the textbook unitary DFT.** `fft2ortho` (written with the shared `dft2` so that the FFT path
 theorem can reuse its algebra) is entry by entry `(1/√(mn)) Σ_a Σ_b x[a,b]·exp(−2πi·a·k/m)·exp(−2πi·b·l/n)`, origin at index 0 -/
 theorem fft2_contract_is_textbook (x : Arr ℂ) (m n : ℕ) (hm : x.s0 = m) (hn : x.s1 = n) (k l : ℤ) :
